@@ -1639,6 +1639,9 @@ def select(F):
 def apply(F, log=None):
     """inline the selected helpers (innermost first, up to three rounds); returns the list of spliced (callee, caller)"""
     done = [('%s()' % k, p) for k, p in splice_local_closure_calls(F) + fuse_iterators(F) + desugar(F)]
+    # (a closure called by name inside an adaptor closure - `let recorded = |p| ..; iter.map(|x| f(recorded(p)))` - becomes a local
+    # call once the adaptor chain is a loop: second pass)
+    done += [('%s()' % k, p) for k, p in splice_local_closure_calls(F) + desugar(F)]
     for _ in range(4):
         devirtualize(F)
         sel = select(F)
